@@ -112,6 +112,12 @@ def run(tier):
             C.violation({"kind": "asymmetric-whitespace", "w": repr(w), "delims": ds},
                         "the character %r is %s after a closing `-` marker (%r -> %r) but %s before an opening one (%r -> %r)" % (
                             w, "trimmed" if after_trimmed else "kept", a, rr[0]["out"], "trimmed" if before_trimmed else "kept", b, rr[1]["out"]), {"a": a, "b": b, "result": rr})
+    # a refused set_delimiters leaves the set in force untouched: afterwards the default delimiters still work, and sources
+    # spelled with the refused ones are plain text where they should be
+    for bad in (["{%", "%}", "{{", "}}", "{{", "#}"], ["{%", "%}", "{{", "}}", "{#", ""], ["{%", "%}", "{{", "}}", "{#", "#"], ["<%", "%>", "<%", ">>", "<#", "#>"], ["{%", "%}", "{{", "}}", "{#", "\u65e5"]):
+        text = "a {# note #} b {{ v }}{% set z = 1 %} <# n #> << v >>"
+        jobs.append({"cfg": {"delims": bad, "delims_soft": True}, "ctx": {"v": "<E>"}, "steps": [{"op": "render_str", "src": text, "auto": False}]})
+        meta.append((-1, 0, "default", text, "a  b <E> <# n #> << v >>"))
     res = vp.run_jobs(jobs, tag="c08", timeout=3000)
     outs = {}
     for (vi, var, ds, text, exp), rr in zip(meta, res):
